@@ -11,6 +11,7 @@ import (
 	"path/filepath"
 	"strconv"
 	"testing"
+	"time"
 
 	"pgregory.net/rapid"
 
@@ -127,4 +128,26 @@ func Main(m *testing.M) {
 	code := m.Run()
 	ev.Flush()
 	os.Exit(code)
+}
+
+// Watchdog guards one case against a hang of the code under test (e.g. a busy
+// loop that never lets virtual time advance). The bound is real time and must
+// be orders of magnitude above the case's normal cost. On expiry the case is
+// written as a replay file, the test is reported as failed and the process
+// exits (the stuck goroutine cannot be stopped). Call the returned func to disarm.
+func Watchdog(t interface{ Name() string }, d time.Duration, c any, what string) func() {
+	name := t.Name()
+	tm := time.AfterFunc(d, func() {
+		dir := os.Getenv("VERIF_REPLAY_DIR")
+		if dir == "" {
+			dir = os.TempDir()
+		}
+		b, _ := json.MarshalIndent(map[string]any{"test": name, "case": c, "message": what}, "", " ")
+		p := filepath.Join(dir, fmt.Sprintf("%s-%016x.json", sanitize(name), ev.Hash(b)))
+		_ = os.WriteFile(p, b, 0o644)
+		fmt.Printf("\nVERIF-VIOLATION-MARK: %s did not finish within %v of real time: %s\nREPLAY-FILE: %s\n--- FAIL: %s (hang)\n", name, d, what, p, name)
+		ev.Flush()
+		os.Exit(1)
+	})
+	return func() { tm.Stop() }
 }
